@@ -59,6 +59,15 @@ fn flatten(v: &[N]) -> Vec<N> {
     out
 }
 
+/// histories before the compile-purity / eval-vs-compile+run comparison: (style, source), style 0 = eval
+const PURE_STARTS: [&[(u8, &str)]; 5] = [
+    &[],
+    &[(0, "[ ] 0 get 5")],
+    &[(0, "[ ] 0 get 5"), (0, "1 foo")],
+    &[(0, "#( 1 0 / #) 2")],
+    &[(1, "7 0 / 5"), (1, "foo")],
+];
+
 fn literal(c: &Cell) -> Option<String> {
     match c {
         Cell::Int(i) => Some(i.to_string()),
@@ -86,13 +95,20 @@ struct Obs {
 }
 fn observe(base: &Xstate, src: &str) -> Result<Obs, String> {
     let mut xs = base.clone();
+    watch::note(AsRef::<str>::as_ref(&src));
     let r = guarded(|| xs.eval(src))?;
     let d = xs.verif_dump_light();
     Ok(Obs { kind: res_kind(&r), stack: stack_of(&xs), heap: dump_get(&d, "heap").to_string(), out: xs.read_stdout().unwrap_or_default() })
 }
 
 // contexts: (name, prefix, suffix, needs exactly one value, the hole is already inside a meta block)
-const CONTEXTS: [(&str, &str, &str, bool); 12] = [
+const CONTEXTS: [(&str, &str, &str, bool); 18] = [
+    ("tag-builder", "7 ^{", "\"k\" ^} tags", true),
+    ("outer-meta-tag-builder", "#( 7 ^{", "\"k\" ^} #) tags", true),
+    ("outer-meta-map", "#( {", "\"k\" } #)", true),
+    ("outer-meta-definition", "#( : w", "; w #)", false),
+    ("outer-meta-branch", "#( true if", "then #)", false),
+    ("outer-meta-values-below", "#( 5 6 : w", "; w - - #)", true),
     ("top", "", "", false),
     ("stack-neighbours", "7", "8", false),
     ("vector", "[", "]", false),
@@ -145,6 +161,7 @@ pub fn run(cfg: &Cfg) -> i32 {
                     // value of e: ordinary evaluation of the flattened expression in a fresh interpreter
                     let mut fx = base.clone();
                     n_evals.fetch_add(1, Ordering::Relaxed);
+                    watch::note(AsRef::<str>::as_ref(&flat_src));
                     match guarded(|| fx.eval(&flat_src)) {
                         Ok(Ok(())) => {}
                         _ => {
@@ -209,6 +226,7 @@ pub fn run(cfg: &Cfg) -> i32 {
                     if std::env::var("C11_DEBUG").is_ok() {
                         eprintln!("compile {}", block);
                     }
+                    watch::note(AsRef::<str>::as_ref(&block));
                     if let Ok(Ok(())) = guarded(|| xs.compile(&block)) {
                         let d = xs.verif_dump();
                         let dict_len: usize = dump_get(&d, "dict_len").parse().unwrap();
@@ -261,6 +279,52 @@ pub fn run(cfg: &Cfg) -> i32 {
                     _ => rep.report_w("panic:const", 0, || jo(vec![("source", js(a_src.clone()))])),
                 }
             }
+            // several definitions in one block, in every order: words (purged when the block closes)
+            // before / between / after constants, a constant defined twice: every constant name
+            // means its latest value afterwards, and no word survives
+            {
+                let items: [&str; 4] = [": h 1 ;", "7 const c", &format!("{} const c", e), "8 const d"];
+                let mut perm: Vec<usize> = (0..items.len()).collect();
+                // all 24 orders (Heap's algorithm, iterative)
+                let mut orders: Vec<Vec<usize>> = vec![perm.clone()];
+                let mut cstack = vec![0usize; items.len()];
+                let mut i = 0;
+                while i < items.len() {
+                    if cstack[i] < i {
+                        if i % 2 == 0 { perm.swap(0, i) } else { perm.swap(cstack[i], i) }
+                        orders.push(perm.clone());
+                        cstack[i] += 1;
+                        i = 0;
+                    } else {
+                        cstack[i] = 0;
+                        i += 1;
+                    }
+                }
+                for o in orders {
+                    let body: Vec<&str> = o.iter().map(|k| items[*k]).collect();
+                    let last_c = if o.iter().position(|k| *k == 1) > o.iter().position(|k| *k == 2) { "7".to_string() } else { v.clone() };
+                    let a_src = format!("#( {} #) c d", body.join(" "));
+                    let b_src = format!("{} 8", last_c);
+                    n_const += 1;
+                    match (observe(&base, &a_src), observe(&base, &b_src)) {
+                        (Ok(a), Ok(b)) => {
+                            if a.kind != b.kind || a.stack != b.stack {
+                                rep.report_w("const-differs:several-definitions", a_src.len() as u64, || {
+                                    jo(vec![("with_const", js(a_src.clone())), ("inlined", js(b_src.clone())), ("const_gives", js(format!("{} {:?}", a.kind, a.stack))), ("inlined_gives", js(format!("{} {:?}", b.kind, b.stack)))])
+                                });
+                            }
+                        }
+                        _ => rep.report_w("panic:const", 0, || jo(vec![("source", js(a_src.clone()))])),
+                    }
+                    let mut xs = base.clone();
+                    let before = xs.word_list().len();
+                    let _ = guarded(|| xs.eval(&format!("#( {} #)", body.join(" "))));
+                    let names: Vec<String> = xs.word_list().iter().skip(before).map(|s| s.to_string()).collect();
+                    if names.iter().any(|n| n != "c" && n != "d") {
+                        rep.report_w("remains:word", 1, || jo(vec![("source", js(format!("#( {} #)", body.join(" ")))), ("new_words", js(format!("{:?}", names)))]));
+                    }
+                }
+            }
             // after the block: the constant exists, the helper word does not
             let mut xs = base.clone();
             let before: Vec<String> = xs.word_list().iter().map(|s| s.to_string()).collect();
@@ -276,12 +340,12 @@ pub fn run(cfg: &Cfg) -> i32 {
 
     // ---------------- (2) sealing
     let seal_alpha: Vec<&str> = if quick {
-        vec!["depth", "drop", "dup", "swap", "1", "g", "5 ! g", "2 var x", "+"]
+        vec!["depth", "drop", "dup", "swap", "over", "rot", "1", "g", "5 ! g", "2 var x", "+"]
     } else {
         vec!["depth", "drop", "dup", "swap", "over", "rot", "1", "2", "g", "5 ! g", "2 var x", "+", "[ ]", "\"s\"", "1 let y"]
     };
     let touches_vars = |b: &str| b.split(' ').any(|w| w == "g" || w == "!" || w == "var" || w == "let");
-    let seal_len = if quick { 3 } else { 3 };
+    let seal_len = if quick { 3 } else { 4 };
     let mut bodies: Vec<Vec<&str>> = vec![vec![]];
     let mut all_bodies: Vec<Vec<&str>> = vec![vec![]];
     for _ in 0..seal_len {
@@ -296,6 +360,11 @@ pub fn run(cfg: &Cfg) -> i32 {
         all_bodies.extend(nx.iter().cloned());
         bodies = nx;
     }
+    // bodies that call a late-bound word of the surrounding program and give it a block-local meaning
+    for b in [vec![": q 5 ;", "u"], vec![": q 5 ;", "u", "u"], vec!["1", ": q 5 ;", "u", "+"]] {
+        all_bodies.push(b);
+    }
+    const OUTER: &str = "33 var g late q : u q ;";
     let n_seal = AtomicU64::new(0);
     let seal_classes = Counters::new();
     par_run(cfg.threads, all_bodies.len(), 16, |_t, pull| {
@@ -311,7 +380,8 @@ pub fn run(cfg: &Cfg) -> i32 {
                 // the model: the body runs on an empty stack and may not touch variables
                 let standalone = {
                     let mut xs = base0.clone();
-                    let _ = xs.eval("33 var g");
+                    let _ = xs.eval(OUTER);
+                    watch::note(AsRef::<str>::as_ref(&body));
                     let r = guarded(|| xs.eval(&body));
                     match r {
                         Ok(Ok(())) => Ok(stack_of(&xs)),
@@ -323,11 +393,13 @@ pub fn run(cfg: &Cfg) -> i32 {
                     n_seal.fetch_add(1, Ordering::Relaxed);
                     let sentinels: Vec<String> = (0..depth).map(|i| format!("{}", 100 + i)).collect();
                     let mut xs = base0.clone();
-                    xs.eval("33 var g").unwrap();
+                    xs.eval(OUTER).unwrap();
                     if depth > 0 {
                         xs.eval(&sentinels.join(" ")).unwrap();
                     }
+                    let code0: Vec<String> = xs.bytecode().iter().map(|op| format!("{:?}", op)).collect();
                     let src = format!("#( {} #)", body);
+                    watch::note(AsRef::<str>::as_ref(&src));
                     let r = match guarded(|| xs.eval(&src)) {
                         Ok(r) => r,
                         Err(pn) => {
@@ -339,7 +411,12 @@ pub fn run(cfg: &Cfg) -> i32 {
                     let want_sent: Vec<String> = sentinels.iter().map(|s| format!("i:{}", s)).collect();
                     let gval = xs.get_var_value("g").map(render).unwrap_or_default();
                     let mut bad: Option<(String, String)> = None;
-                    if gval != "i:33" {
+                    // the code that existed before the block is the same instruction for instruction
+                    let code1: Vec<String> = xs.bytecode().iter().take(code0.len()).map(|op| format!("{:?}", op)).collect();
+                    let changed = (0..code0.len()).find(|i| code1.get(*i) != Some(&code0[*i]));
+                    if let Some(i) = changed {
+                        bad = Some(("seal:outer-code-changed".into(), format!("instruction {} of the surrounding program, `{}`, became `{}`", i, code0[i], code1.get(i).map(|s| s.as_str()).unwrap_or("(nothing)"))));
+                    } else if gval != "i:33" {
                         bad = Some(("seal:variable-changed".into(), format!("outer variable g is {} after the block", gval)));
                     } else if st.len() < depth || st[..depth] != want_sent[..] {
                         bad = Some(("seal:outer-stack-changed".into(), format!("outer stack {:?} became {:?}", want_sent, st)));
@@ -389,33 +466,66 @@ pub fn run(cfg: &Cfg) -> i32 {
                 tasks_all.extend(tasks(gr, s, 1, &G::top()));
             }
             par_run(cfg.threads, tasks_all.len(), 1, |_t, pull| {
-                let mut base = boot();
-                base.eval("11 22 33 var g").unwrap();
-                let _ = base.set_insn_limit(Some(5000));
+                // start states: idle with data and a variable; after a program that failed at run time in
+                // its middle; after that and a rejected source; after a rejected source alone; the failed
+                // program submitted as compile + run
+                let bases: Vec<(String, Xstate)> = PURE_STARTS
+                    .iter()
+                    .map(|h| {
+                        let mut xs = boot();
+                        let _ = xs.set_insn_limit(Some(5000));
+                        xs.eval("11 22 33 var g").unwrap();
+                        for (style, s) in h.iter() {
+                            let _ = guarded(|| if *style == 0 { xs.eval(s) } else { xs.compile(s).and_then(|_| xs.run()) });
+                        }
+                        let _ = xs.read_stdout();
+                        (h.iter().map(|(st, s)| format!("{} `{}`", if *st == 0 { "eval" } else { "compile+run" }, s)).collect::<Vec<_>>().join(", "), xs)
+                    })
+                    .collect();
                 let keep = ["data", "data_hidden", "return", "loops", "special", "stdout", "mode", "nested", "flow", "input", "ip"];
-                let before = project_keep(&base.verif_dump_light(), &keep);
-                let heap_before = dump_get(&base.verif_dump_light(), "heap").to_string();
                 while let Some(r) = pull() {
                     for ti in r {
                         run_task(gr, &tasks_all[ti], &mut |prog, _| {
                             let src = source(prog);
-                            let mut xs = base.clone();
-                            n_pure.fetch_add(1, Ordering::Relaxed);
-                            let r = match guarded(|| xs.compile(&src)) {
-                                Ok(r) => r,
-                                Err(_) => return,
-                            };
-                            let d = xs.verif_dump_light();
-                            let mut after = project_keep(&d, &keep);
-                            if r.is_ok() {
-                                // a successful compile leaves the new code to be run: ip may point at it
-                                after = after.replace(&format!("ip={}\n", dump_get(&d, "ip")), &format!("ip={}\n", dump_get(&base.verif_dump_light(), "ip")));
-                            }
-                            let heap_after = dump_get(&d, "heap");
-                            if after != before || !heap_after.starts_with(&heap_before) {
-                                rep.report_w("compile-not-pure", src.len() as u64, || {
-                                    jo(vec![("kind", js("compile-purity")), ("source", js(src.clone())), ("before", js(truncate(&before, 300))), ("after", js(truncate(&after, 300))), ("heap_after", js(truncate(heap_after, 200)))])
-                                });
+                            for (bi, (hist, base)) in bases.iter().enumerate() {
+                                let before = project_keep(&base.verif_dump_light(), &keep);
+                                let heap_before = dump_get(&base.verif_dump_light(), "heap").to_string();
+                                let mut xs = base.clone();
+                                n_pure.fetch_add(1, Ordering::Relaxed);
+                                watch::note(AsRef::<str>::as_ref(&src));
+                                let r = match guarded(|| xs.compile(&src)) {
+                                    Ok(r) => r,
+                                    Err(_) => return,
+                                };
+                                let d = xs.verif_dump_light();
+                                let mut after = project_keep(&d, &keep);
+                                if r.is_ok() || bi > 0 {
+                                    // a successful compile leaves the new code to be run: ip may point at it (and a
+                                    // compile after a failed run gives up the rest of that run)
+                                    after = after.replace(&format!("ip={}\n", dump_get(&d, "ip")), &format!("ip={}\n", dump_get(&base.verif_dump_light(), "ip")));
+                                }
+                                let heap_after = dump_get(&d, "heap");
+                                if after != before || !heap_after.starts_with(&heap_before) {
+                                    rep.report_w("compile-not-pure", (src.len() + 100 * bi) as u64, || {
+                                        jo(vec![("kind", js("compile-purity")), ("before", js(hist.clone())), ("source", js(src.clone())), ("state_before", js(truncate(&before, 300))), ("state_after", js(truncate(&after, 300))), ("heap_after", js(truncate(heap_after, 200)))])
+                                    });
+                                }
+                                // eval is compile followed by run
+                                if r.is_ok() {
+                                    let run_r = guarded(|| xs.run());
+                                    let mut ys = base.clone();
+                                    let eval_r = guarded(|| ys.eval(&src));
+                                    if let (Ok(rr), Ok(er)) = (run_r, eval_r) {
+                                        n_pure.fetch_add(1, Ordering::Relaxed);
+                                        let a = (res_kind(&rr), stack_of(&xs), dump_get(&xs.verif_dump_light(), "heap").to_string(), xs.read_stdout().unwrap_or_default());
+                                        let b = (res_kind(&er), stack_of(&ys), dump_get(&ys.verif_dump_light(), "heap").to_string(), ys.read_stdout().unwrap_or_default());
+                                        if a != b {
+                                            rep.report_w("eval-differs-from-compile+run", (src.len() + 100 * bi) as u64, || {
+                                                jo(vec![("kind", js("eval-vs-compile-run")), ("before", js(hist.clone())), ("source", js(src.clone())), ("compile_then_run", js(format!("{:?}", a))), ("eval", js(format!("{:?}", b)))])
+                                            });
+                                        }
+                                    }
+                                }
                             }
                         });
                     }
@@ -430,7 +540,7 @@ pub fn run(cfg: &Cfg) -> i32 {
     ev.traces = ev.states;
     ev.nontrivial = n_expr_ok.load(Ordering::Relaxed);
     ev.rule = format!(
-        "(1) every constant expression of the expression grammar (arithmetic, stack words, vectors, nested meta blocks, local definitions, branches) up to {} nodes that evaluates without error standalone, in {} contexts: program with the block vs program with its literal values (last result first); (2) every block body of <= {} words over a {}-word probing alphabet x outer stacks of depth 0..3 x an outer variable; (3) dictionary delta and code growth per value class ({} value classes); (4) compile of every program of three grammars up to 3 nodes leaves stack, variables and output untouched. non-trivial = distinct expressions that evaluate and whose values can be written as literals",
+        "(1) every constant expression of the expression grammar (arithmetic, stack words, vectors, nested meta blocks, local definitions, branches) up to {} nodes that evaluates without error standalone, in {} contexts: program with the block vs program with its literal values (last result first); (2) every block body of <= {} words over a {}-word probing alphabet x outer stacks of depth 0..3 x an outer variable; (3) dictionary delta and code growth per value class ({} value classes); (4) compile of every program of three grammars up to 3 nodes leaves stack, variables and output untouched and compile+run equals eval, from 5 start states (idle; after a program that failed at run time; after that and a rejected source; after a rejected source; the same submitted as compile+run). non-trivial = distinct expressions that evaluate and whose values can be written as literals",
         maxn, CONTEXTS.len(), seal_len, seal_alpha.len(), groups
     );
     ev.add("expressions_enumerated", ji(n_expr.load(Ordering::Relaxed)));
